@@ -97,11 +97,13 @@ CLAIMS = {
          "all inverted by the parser; i64::MIN included). PARTIAL in one clause: that the rendering is Go's canonical one is not a theorem - it is evaluated "
          "on the implementation against an independent implementation of Go's algorithm for a boundary set and random log-uniform durations of both signs. "
          "The model transcribes duration.rs after its repair (exact integer parser)."),
- "C16": ("PARTIAL. Theorems: the day-number <-> civil-date conversions invert each other for EVERY integer day and EVERY valid proleptic-Gregorian "
+ "C16": ("Theorems: the day-number <-> civil-date conversions invert each other for EVERY integer day and EVERY valid proleptic-Gregorian "
          "date (one 400-year cycle by kernel computation, lifted to all integers through proved 146097-day / 400-year periodicity of both functions); the "
          "fields behind every accessor are those of the local time at the timestamp's own offset (valid date whose day number is the local day, fields "
          "reassemble the local instant) with the documented origins; == and < compare instants regardless of offset; t + d - d = t and (t + d) - t = d "
-         "whenever t + d is within chrono's range, an overflow error otherwise. Not proved: the RFC 3339 text round trip. Tied to functions.rs/objects.rs/"
+         "whenever t + d is within chrono's range, an overflow error otherwise; and timestamp(string(t)) == t, offset included, for every instant whose local "
+         "year is 0000-9999 and every whole-minute offset (C16_text_roundtrip: the model's to_rfc3339 text is read back field by field - padded digits, "
+         "the 0/3/6/9-digit fraction, the signed hh:mm offset - and reassembles to the same instant). The text functions model chrono's (validated by the stream). Tied to functions.rs/objects.rs/"
          "chrono by boundary and random timestamps through every accessor, string(), timestamp(), arithmetic and comparison, with all laws evaluated on the "
          "implementation against an independent calendar computation."),
  "C17": ("Theorems over the whole serde data model (an inductive type with one constructor per Serializer entry point), by induction on the data: "
